@@ -559,6 +559,13 @@ import kernels2  # noqa: E402,F401
 kernels2.register(K, globals())
 
 
+# ------------------------------------------------------------------ third generation
+# (Face3D construction, offsets, hole merging, segment joining, mesh helpers ...)
+_GENERATION[0] = 2
+import kernels3  # noqa: E402,F401
+kernels3.register(K, globals())
+
+
 def all_kernels():
     import copy
     return copy.deepcopy(KERNELS)
